@@ -18,7 +18,7 @@ import (
 func init() {
 	Register(&Spec{
 		ID:           "C01",
-		Explanation:  "Decides a discipline-based necessary condition of memory safety of the read path, exhaustively over sites: (R1) Segment.data is indexed or sliced only inside the small kernel (slice, alloc, the two list-copy sites) and replaced only by alloc/setSegment; (R2) calls of the ...Unchecked arithmetic helpers occur only at the listed justified sites; (R3) the ok/err companion of every checked helper (addSize, element, times, resolve, totalListSize, dataAddress, primitiveElem, regionInBounds, lookupSegment, Message.Segment, canRead ...) reaches a branch that dominates every use of the paired value, blank-ignored only at listed sites; (R4) every call of a raw segment accessor (slice, read/writeUintN, read/writeRawPointer) has an address whose provenance is one of the enumerated justified forms (dominating regionInBounds on the same segment with constant offset+width inside the region, dataAddress/primitiveElem with the companion tested and the width within the requested size, pointerAddress under i < PointerCount, bit offset under bitInData, an object's own off/size pair, a fresh allocation, or a pointer-slot parameter whose callers are then obliged); (R5) Struct/List/Ptr values with a segment are constructed only in the listed functions, and the three readers construct them under a dominating regionInBounds on the constructed offset; (R6) the arithmetic and bounds kernel has the normal form recorded when the lemma was confirmed; (R7) the explicit panics reachable from the read API are the enumerated programmer-error ones. (R5u) the element address of a list read with another element size: every feasible success path of primitiveElem for a composite list carries both size comparisons (shared with C03-R3). (R7o) address.addOffset only ever receives a schema field offset handed in by the caller, never a value computed from a list index; (R8) a constant-index call of a panicking element accessor inside the library is dominated by a length test of that list. (R9) every recursive reader of the deep-copy and traversal code passes on the depth limit of the object it reads (shared with C02-R6). Does NOT decide numeric correctness of extents beyond these guards, panics inside the standard library, memory growth or blocking readers.",
+		Explanation:  "Decides a discipline-based necessary condition of memory safety of the read path, exhaustively over sites: (R1) Segment.data is indexed or sliced only inside the small kernel (slice, alloc, the two list-copy sites) and replaced only by alloc/setSegment; (R2) calls of the ...Unchecked arithmetic helpers occur only at the listed justified sites; (R3) the ok/err companion of every checked helper (addSize, element, times, resolve, totalListSize, dataAddress, primitiveElem, regionInBounds, lookupSegment, Message.Segment, canRead ...) reaches a branch that dominates every use of the paired value, blank-ignored only at listed sites; (R4) every call of a raw segment accessor (slice, read/writeUintN, read/writeRawPointer) has an address whose provenance is one of the enumerated justified forms (dominating regionInBounds on the same segment with constant offset+width inside the region, dataAddress/primitiveElem with the companion tested and the width within the requested size, pointerAddress under i < PointerCount, bit offset under bitInData, an object's own off/size pair, a fresh allocation, or a pointer-slot parameter whose callers are then obliged); (R5) Struct/List/Ptr values with a segment are constructed only in the listed functions, and the three readers construct them under a dominating regionInBounds on the constructed offset; (R6) the arithmetic and bounds kernel has the normal form recorded when the lemma was confirmed; (R7) the explicit panics reachable from the read API are the enumerated programmer-error ones. (R5u) the element address of a list read with another element size: every feasible success path of primitiveElem for a composite list carries both size comparisons (shared with C03-R3). (R7o) address.addOffset only ever receives a schema field offset handed in by the caller, never a value computed from a list index; (R8) a constant-index call of a panicking element accessor inside the library is dominated by a length test of that list. (R9) every recursive reader of the deep-copy and traversal code passes on the depth limit of the object it reads (shared with C02-R6). (R10) the segment a reusing Decoder hands out is x[:len(x):len(x)] of the very slice the dominating io.ReadFull filled (segment bounds are the bytes read for this message, not the high-water mark of the buffer). Does NOT decide numeric correctness of extents beyond these guards, panics inside the standard library, memory growth or blocking readers.",
 		ExtraConfigs: true,
 		Run:          runC01,
 	})
@@ -38,6 +38,7 @@ func runC01(ctx *Ctx) {
 	// a deep copy out of a hostile message recurses on the source's depth limit
 	// (shared with C02-R6 under this property's id)
 	ruleReadPtrCallers(ctx, "C01-R9")
+	ruleReuseArenaIsTheBufferRead(ctx, "C01-R10")
 	if ctx.Primary {
 		ruleKernelLemmas(ctx, "C01-R6", kernelLemmaFuncs)
 	}
@@ -446,6 +447,27 @@ var accessExemptByContent = map[string]string{
 // the name-free form (expandWant / RenderValueR) when the reference tree
 // defines those locals; otherwise literally.
 func exemptByContent(fname, acc, addrNamed, addrResolved string) (string, bool) {
+	if why, ok := exemptByContentAcc(fname, acc, addrNamed, addrResolved); ok {
+		return why, true
+	}
+	// The justification of a pointer slot is about the eight bytes at the
+	// address, not about the accessor: a slot that may be read with readPtr may
+	// be read as a raw pointer word, and the other way round.
+	slot := map[string]bool{"readPtr": true, "writePtr": true, "readRawPointer": true, "writeRawPointer": true}
+	if slot[acc] {
+		for other := range slot {
+			if other == acc {
+				continue
+			}
+			if why, ok := exemptByContentAcc(fname, other, addrNamed, addrResolved); ok {
+				return why + " (the same pointer slot, accessed with " + acc + ")", true
+			}
+		}
+	}
+	return "", false
+}
+
+func exemptByContentAcc(fname, acc, addrNamed, addrResolved string) (string, bool) {
 	pre := fname + " | " + acc + "("
 	for k, why := range accessExemptByContent {
 		if !strings.HasPrefix(k, pre) || !strings.HasSuffix(k, ")") {
